@@ -125,6 +125,10 @@ size_t sim_mkstemp_templates(char (*out)[256], size_t max)
 	return ntmpl;
 }
 
+/* descriptors opened through the seam while tracking is on (see sim_mmap_track): closed by sim_release_leaked */
+static int track_fds;
+static int live_fd_tab[64] = { -1, -1, -1, -1, -1, -1, -1, -1, -1, -1, -1, -1, -1, -1, -1, -1, -1, -1, -1, -1, -1, -1, -1, -1, -1, -1, -1, -1, -1, -1, -1, -1,
+			       -1, -1, -1, -1, -1, -1, -1, -1, -1, -1, -1, -1, -1, -1, -1, -1, -1, -1, -1, -1, -1, -1, -1, -1, -1, -1, -1, -1, -1, -1, -1, -1 };
 static void log_template(const char *t)
 {
 	size_t slot = __atomic_fetch_add(&ntmpl, 1, __ATOMIC_RELAXED);
@@ -141,13 +145,13 @@ int sim_open(const char *path, int flags, ...)
 		if (fd >= 0) { INC(mkstemps); INC(live_fds); }
 		return fd;
 	}
-	if (fd >= 0) { INC(opens); INC(live_fds); }
+	if (fd >= 0) { INC(opens); INC(live_fds); if (track_fds) { for (int i = 0; i < 64; i++) if (live_fd_tab[i] < 0) { live_fd_tab[i] = fd; break; } } }
 	return fd;
 }
 int sim_close(int fd)
 {
 	int r = close(fd);
-	if (r == 0) { INC(closes); DEC(live_fds); }
+	if (r == 0) { INC(closes); DEC(live_fds); if (track_fds) { for (int i = 0; i < 64; i++) if (live_fd_tab[i] == fd) { live_fd_tab[i] = -1; break; } } }
 	return r;
 }
 int sim_dup(int fd)
@@ -178,19 +182,34 @@ int sim_unlink(const char *path)
 }
 
 /* ------------------------------------------------------------------- mmap */
-static int exact_heap;
+static int exact_heap, track_maps;
 void sim_mmap_exact_heap(int on) { exact_heap = on; }
+void sim_mmap_track(int on) { track_maps = on; track_fds = on; }
 
 /* fault: the n-th mmap call from now fails with ENOMEM (0 = none); one shot */
 static int mmap_fail_in;
 void sim_mmap_fail_in(int n) { mmap_fail_in = n; }
+
+/* real mappings made through the seam and not yet unmapped: after a trapped assertion inside mtbl_reader_init the
+ * half-built reader is unreachable, and an exhaustive sweep would otherwise accumulate tens of thousands of mappings
+ * (the kernel's per-process limit is 65530).  Single-threaded use only (corrupt engine). */
+static struct { void *p; size_t len; } live_real[256];
+static void track_map(void *p, size_t len) { for (int i = 0; i < 256; i++) if (!live_real[i].p) { live_real[i].p = p; live_real[i].len = len; return; } }
+static void untrack_map(void *p) { for (int i = 0; i < 256; i++) if (live_real[i].p == p) { live_real[i].p = 0; return; } }
+int sim_mmap_release_leaked(void)
+{
+	int n = 0;
+	for (int i = 0; i < 256; i++) if (live_real[i].p) { munmap(live_real[i].p, live_real[i].len); live_real[i].p = 0; DEC(live_maps); n++; }
+	for (int i = 0; i < 64; i++) if (live_fd_tab[i] >= 0) { close(live_fd_tab[i]); live_fd_tab[i] = -1; DEC(live_fds); n++; }
+	return n;
+}
 
 void *sim_mmap(void *addr, size_t len, int prot, int flags, int fd, off_t off)
 {
 	if (mmap_fail_in > 0 && --mmap_fail_in == 0) { INC(mmap_failures); errno = ENOMEM; return MAP_FAILED; }
 	if (!exact_heap) {
 		void *p = mmap(addr, len, prot, flags, fd, off);
-		if (p != MAP_FAILED) { INC(mmaps); INC(live_maps); }
+		if (p != MAP_FAILED) { INC(mmaps); INC(live_maps); if (track_maps) track_map(p, len); }
 		return p;
 	}
 	/* exact-size heap copy: any access before/after "the file's bytes" hits an ASan red zone */
@@ -209,7 +228,7 @@ void *sim_mmap(void *addr, size_t len, int prot, int flags, int fd, off_t off)
 int sim_munmap(void *addr, size_t len)
 {
 	INC(munmaps); DEC(live_maps);
-	if (!exact_heap) return munmap(addr, len);
+	if (!exact_heap) { if (track_maps) untrack_map(addr); return munmap(addr, len); }
 	free(addr);
 	return 0;
 }
